@@ -310,6 +310,7 @@ type Config struct {
 	StrategyEdits bool   `json:"strategyEdits"`
 	Evictions    bool    `json:"evictions,omitempty"` // daemon pods are deleted by somebody else (drain, eviction)
 	ModeEdits    bool    `json:"modeEdits,omitempty"` // the user flips canary.validationMode on the defaulted object
+	ERSTouch     bool    `json:"ersTouch,omitempty"` // somebody edits the metadata of replica sets (kubectl annotate)
 	MigrationEdits bool  `json:"migrationEdits,omitempty"` // the old-daemonset annotation is removed / put back
 	Policy       string  `json:"policy"` // uniform, chaser, starver
 	Starve       string  `json:"starve,omitempty"`
